@@ -158,6 +158,80 @@ theorem shared_no_panic_adv {P : AdvP} (hP : P.Ok) (hkey : ∀ w, (P.mixWord w >
     exact ⟨z, hz⟩
   · exact ⟨_, rfl⟩
 
+/-! ### the job's own index (`StoreLookaheadThenStore` over its kept prefix) -/
+
+/-- one `BulkStoreRange(d, usize::MAX, 0, m)` from the constructor's tables, `m + 7 ≤ d.len()` -/
+theorem basic_bulk0_isSome {P : BasicP} (hP : P.Ok) (hs : P.sweep ≠ 0) (len : Nat)
+    (hfit : ∀ w, P.hash w % U32 + P.sweep ≤ len) (d : List Nat) (m : Nat) (hm : m + 7 ≤ d.length) :
+    ∃ b, (basicModel P len).bulk (basicModel P len).empty d 0 m = some b ∧ b.size = len :=
+  liftBulk_isSome (I := fun b => b.size = len) (bound := m)
+    (store := fun d => Basic.store P d USIZE_MAX)
+    (fun d s e st _ _ => basic_fold hP d s e st) _ (by simp) d m (Nat.le_refl _)
+    (fun i y hi hy => by
+      have hw : (i &&& USIZE_MAX) + 8 ≤ (toBA d).size := by
+        rw [toBA_size]; have := and_usize_le i; omega
+      obtain ⟨b', h1, h2⟩ := Basic.store_some (P := P) (mask := USIZE_MAX) (b := y) hs (by rw [hy]; exact hfit) hw
+      exact ⟨b', h1, h2.trans hy⟩)
+
+theorem h9_bulk0_isSome {P : H9P} (hkey : ∀ w, P.hash w % U32 < 2 ^ 15) (d : List Nat) (m : Nat)
+    (hm : m + 3 ≤ d.length) : ∃ st, (h9Model P).bulk (h9Model P).empty d 0 m = some st := by
+  obtain ⟨z, hz, _⟩ := liftBulk_isSome (bulk := H9.bulkStoreRange P)
+    (I := fun st => st.num.size = 2 ^ 15 ∧ st.buckets.size = 2 ^ 23) (bound := m)
+    (store := fun d => H9.store P d USIZE_MAX)
+    (fun _ _ _ _ _ _ => rfl) ⟨Array.replicate (1 <<< 15) 0, Array.replicate (1 <<< 23) 0⟩
+    ⟨by simp, by simp⟩ d m (Nat.le_refl _)
+    (fun i y hi hy => by
+      have hw : (i &&& USIZE_MAX) + 4 ≤ (toBA d).size := by
+        rw [toBA_size]; have := and_usize_le i; omega
+      obtain ⟨st', h1, h2, h3⟩ := H9.store_some (P := P) (mask := USIZE_MAX) (st := y) hkey hy.1 hy.2 hw
+      exact ⟨st', h1, h2, h3⟩)
+  exact ⟨z, hz⟩
+
+theorem adv_bulk0_isSome {P : AdvP} (hP : P.Ok) (hkey : ∀ w, (P.mixWord w >>> P.shift) % U32 < P.bucketSize)
+    (hmk : P.blockMask < 2 ^ P.blockBits) (hla : 1 ≤ P.lookahead) (d : List Nat) (m : Nat)
+    (hm : m + (P.lookahead - 1) ≤ d.length) (hm64 : m ≤ 2 ^ 64) :
+    ∃ st, (advModel P).bulk (advModel P).empty d 0 m = some st := by
+  have hpow : (1 <<< P.blockBits) = 2 ^ P.blockBits := by rw [Nat.shiftLeft_eq, Nat.one_mul]
+  obtain ⟨z, hz, _⟩ := liftBulk_isSome (bulk := Adv.bulkStoreRange P)
+    (I := fun st => Adv.sizesAsserted P st = true ∧ st.num.size = P.bucketSize ∧
+      st.buckets.size = P.bucketSize * 2 ^ P.blockBits) (bound := 2 ^ 64)
+    (store := fun d => Adv.store P d USIZE_MAX)
+    (fun d s e st hst he => Adv.bulkStoreRange_eq_fold hP d USIZE_MAX s e he st hst.1)
+    ⟨Array.replicate P.bucketSize 0, Array.replicate (P.bucketSize * (1 <<< P.blockBits)) 0⟩
+    ⟨Adv.init_sizesAsserted P, by simp, by simp [hpow]⟩ d m hm64
+    (fun i y hi hy => by
+      have hw : (i &&& USIZE_MAX) + P.lookahead ≤ (toBA d).size := by
+        rw [toBA_size]; have := and_usize_le i; omega
+      obtain ⟨st', h1, h2, h3⟩ := Adv.store_some (P := P) (mask := USIZE_MAX) (st := y) hkey hmk hy.2.1 hy.2.2 hw
+      exact ⟨st', h1, Adv.store_sizesAsserted hy.1 h1, h2, h3⟩)
+  exact ⟨z, hz⟩
+
+/-- the kept part of the prefix has at least `kept` bytes, and `kept ≤ size` -/
+theorem dict_length (input : List Nat) (size lgwin quality : Nat) (hsz : size ≤ input.length) :
+    (dictPlan size lgwin quality).kept ≤ ((input.take size).drop (dictPlan size lgwin quality).dropped).length ∧
+    (dictPlan size lgwin quality).kept ≤ size := by
+  simp only [List.length_drop, List.length_take, Nat.min_eq_left hsz]
+  by_cases h0 : size = 0 ∨ quality = 0 ∨ quality = 1
+  · simp [dictPlan, h0]
+  · by_cases h1 : size > 2 ^ lgwin - 16
+    · simp only [dictPlan, h0, h1, if_false, if_true]; omega
+    · simp only [dictPlan, h0, h1, if_false]; omega
+
+/-- `selfbuilt` does not panic as soon as one bulk store from the empty index over a buffer that
+covers its look-ahead does not -/
+theorem selfbuilt_isSome {σ : Type} (M : HasherModel (Option σ)) (he : ∃ x, M.empty = some x) (overlap : Nat)
+    (hb : ∀ (d : List Nat) (m : Nat), m + overlap ≤ d.length → m ≤ 2 ^ 64 → ∃ st, M.bulk M.empty d 0 m = some st)
+    (input : List Nat) (size lgwin quality : Nat) (hsz : size ≤ input.length) (h64 : size ≤ 2 ^ 64) :
+    ∃ st, selfbuilt M input size lgwin quality overlap = some st := by
+  unfold selfbuilt
+  obtain ⟨hlen, hk⟩ := dict_length input size lgwin quality hsz
+  dsimp only
+  by_cases hgt : (dictPlan size lgwin quality).kept > overlap
+  · rw [if_pos hgt]
+    exact hb _ _ (by omega) (by omega)
+  · rw [if_neg hgt]
+    exact he
+
 /-! ### the hash ranges of the real kinds -/
 
 theorem basicHash_lt (hashLen bucketBits : Nat) (hb : bucketBits ≤ 64) (w : List Nat) :
